@@ -21,7 +21,7 @@ THEOREMS = [P + t for t in (
     "finalized_immutable", "finalize_locks", "encode_requires_finalize", "maintenance_roundtrip", "entry_unknown_key",
     "pathinfo_encode_total", "pathinfo_roundtrip", "ero_roundtrip", "pathinfo_unknown_key", "path_unknown_key",
     "ttuple_fromstring_partial", "ttuple_parse_roundtrip", "ttuple_fromstring_counterexample", "ttuple_int_counterexample",
-    "tuple_types_clean",
+    "tuple_types_clean", "gateway_roundtrip", "gateway_unset",
 )]
 TRUSTED_BASE = [
     "gen/fields.py: AST patterns for JSONField._set_fields guards, to_json/to_dict drop conditions, from_json/update statement lists; "
@@ -32,7 +32,10 @@ TRUSTED_BASE = [
     "`true` and the harness only sends label values the implementation accepted",
     "datetime.fromisoformat/isoformat is an abstract function `iso` (hypothesis: canonical ISO text is a fixed point); "
     "the harness supplies its graph on the strings of each case",
-    "mutation of inputs (aliasing) is checked by the oracle with deep copies, not proved (the Lean model is purely functional)",
+    "mutation of inputs, aliasing of inputs / returned values and process-level hidden state are checked by the oracle (deep-copy "
+    "snapshots after every call, in-place changes of caller-owned objects, class orders in this process and in fresh "
+    "interpreters), not proved: the Lean model is purely functional, which is exactly what those checks establish for the code; "
+    "the translator refuses class-level mutable attributes / run-time writes to class attributes on JSONField classes",
     "keys that name a method/class attribute of the class, and the parameter names self/forgiving/cls/lab, are outside the model "
     "(`unmodelled`); the oracle reports the former on the implementation",
 ]
